@@ -323,10 +323,11 @@ def patterns(k, nq, level):
 def tier_plan(tier):
     # (k, pattern level, sample size per first edit or None for exhaustive, mode)
     # mode "assigned": only histories whose first edit assigns a value, with assigned_patterns()
+    # (the rows run in this order: a run cut by the budget loses the sampled long histories first)
     if tier == "quick":
-        return [(1, 1, None, None), (2, 0, None, None), (3, 0, 4, None), (3, 0, None, "assigned")]
-    return [(1, 2, None, None), (2, 2, None, None), (3, 1, None, None), (4, 0, 100, None), (5, 0, 50, None),
-            (3, 1, None, "assigned"), (4, 0, 400, "assigned")]
+        return [(1, 1, None, None), (2, 0, None, None), (3, 0, None, "assigned"), (3, 0, 4, None)]
+    return [(1, 2, None, None), (2, 2, None, None), (3, 1, None, "assigned"), (3, 1, None, None),
+            (4, 0, 200, "assigned"), (4, 0, 100, None), (5, 0, 50, None)]
 
 
 ASSIGN_TAG = "edit:value-assign"
@@ -441,8 +442,10 @@ def run(res, tier, seed):
     res.bound = ("%d worlds of 2-5 spaces (<= %d queries, <= %d edit operations each; vocabulary in c02_worlds.py); "
                  "histories of <= 3 edits interleaved with <= 3 evaluation rounds exhaustively"
                  % (len(worlds), max(len(w.queries) for w in worlds), max(len(w.edits) for w in worlds))
-                 + (" (3-edit histories sampled in the quick tier)" if tier == "quick"
-                    else ", plus seeded samples of 4- and 5-edit histories"))
+                 + (" (3-edit histories sampled in the quick tier, except those that start with a value assignment: "
+                    "exhaustive, the element computed only after the later edits)" if tier == "quick"
+                    else ", plus seeded samples of 4- and 5-edit histories; the 3-edit histories that start with a value "
+                         "assignment also with the element computed only after the later edits, 4-edit ones sampled"))
     res.rule = ("per world: every edit sequence accepted by the edits-only replay model (and leaving no reference bound "
                 "to a deleted object) x evaluation patterns "
                 "(per gap: none / all queries forward / all reverse / one query); one evaluation = one live history, "
